@@ -114,7 +114,7 @@ def canon_program(p):
 
 # ---------------------------------------------------------------- comparison
 
-def close(a, b, rel=REL):
+def close(a, b, rel=REL, abs_tol=1e-300):
     a = complex(a)
     b = complex(b)
     if a == b:
@@ -123,7 +123,7 @@ def close(a, b, rel=REL):
         return (math.isnan(a.real) == math.isnan(b.real)) and (math.isnan(a.imag) == math.isnan(b.imag))
     if any(math.isinf(x) for x in (a.real, a.imag, b.real, b.imag)):
         return a == b
-    return abs(a - b) <= rel * max(abs(a), abs(b)) + 1e-300
+    return abs(a - b) <= rel * max(abs(a), abs(b)) + abs_tol
 
 
 def tree_symbols(t, acc=None):
@@ -181,7 +181,7 @@ def sym_equal(tree, expr, what, diffs, path):
             iv = f(*[env[n] for n in names]) if names else complex(expr)
         except (ZeroDivisionError, OverflowError, ValueError, TypeError):
             continue
-        if not close(mv, iv, 1e-8):
+        if not close(mv, iv, 1e-8, 1e-9):
             diffs.append("%s: %s value differs at %s model=%r impl=%r (impl expr %s)" % (path, what, env, mv, iv, expr))
             return
 
